@@ -2,6 +2,7 @@ package govc
 
 import (
 	"fmt"
+	"go/ast"
 	"go/constant"
 	"go/token"
 	"go/types"
@@ -484,6 +485,12 @@ func (g *vcgen) call2(v ssa.Value, c *ssa.CallCommon, args []string) []string {
 	if fc := g.eng.funcFieldContract(c.Value); fc != nil {
 		return g.applyContract(fc, nil, c.Signature(), args, nil, fc.FullName())
 	}
+	if g.fc != nil && g.fc.Flags["extfunc"] != "" {
+		if name := g.sourceNameOf(c.Value); name != "" && flagHas(g.fc.Flags["extfunc"], name) {
+			g.noteAssumption("function value '" + name + "' in " + g.u.Name + " is declared to hold a library function (e.g. a context.CancelFunc): calling it has no effect on module state")
+			return g.freshResults(c.Signature())
+		}
+	}
 	if fk := g.eng.libraryFuncField(c.Value); fk != "" {
 		g.noteAssumption("dynamic call through field " + fk + ": every value stored there is the result of a library call (checked), so the call is a library call without effect on module state")
 		return g.freshResults(c.Signature())
@@ -894,6 +901,38 @@ func (g *vcgen) applyContract(fc *FuncContract, fn *ssa.Function, sig *types.Sig
 			g.havocNamed("G.last." + ev)
 			g.havocNamed("G.now")
 		}
+		// ghost events are not part of a frame: whatever the callee's body may emit (computed, not declared)
+		// is forgotten here, so callers never count with stale counters
+		if fn != nil && fn.Blocks != nil && g.eng.InModule(fn) {
+			evs, all := g.eng.EventEffects(fn)
+			if all {
+				for n := range g.varSort {
+					if strings.HasPrefix(n, "G.cnt.") {
+						evs[strings.TrimPrefix(n, "G.cnt.")] = true
+					}
+				}
+			}
+			var names []string
+			for ev := range evs {
+				names = append(names, ev)
+			}
+			sort.Strings(names)
+			for _, ev := range names {
+				if _, used := g.varSort["G.cnt."+ev]; !used {
+					continue // this unit never looks at the event
+				}
+				g.havocNamed("G.cnt." + ev)
+				g.havocNamed("G.first." + ev)
+				g.havocNamed("G.last." + ev)
+				if _, ok := g.varSort["G.ret."+ev]; ok {
+					g.havocNamed("G.ret." + ev)
+				}
+			}
+			if len(names) > 0 {
+				g.stateVar("G.now", "Int")
+				g.havocNamed("G.now")
+			}
+		}
 	} else if fn != nil && fn.Blocks != nil && g.eng.InModule(fn) {
 		g.havocEffectsOf(g.eng.FuncEffects(fn), calleeShort)
 	} else {
@@ -905,6 +944,9 @@ func (g *vcgen) applyContract(fc *FuncContract, fn *ssa.Function, sig *types.Sig
 	for _, e := range fc.Ensures {
 		t, err := envPost.EvalBool(e.Expr)
 		if err != nil {
+			if strings.Contains(err.Error(), "the event never occurs in this function") {
+				continue // a clause about the callee's internal call trace: not visible to this caller
+			}
 			g.unsupported("ensures of %s: %v", calleeName, err)
 			continue
 		}
@@ -1740,4 +1782,46 @@ func (g *vcgen) pureClosureAxiom(mc *ssa.MakeClosure) {
 		}
 	}
 	g.u.UsedContracts[fc.FullName()] = true
+}
+
+// sourceNameOf: the source-level variable an SSA value (or the cell it is loaded from) is bound to
+func (g *vcgen) sourceNameOf(v ssa.Value) string {
+	switch x := v.(type) {
+	case *ssa.Parameter:
+		return x.Name()
+	case *ssa.FreeVar:
+		return x.Name()
+	case *ssa.UnOp:
+		if x.Op == token.MUL {
+			if n := g.sourceNameOf(x.X); n != "" {
+				return n
+			}
+		}
+	case *ssa.Alloc:
+		if x.Comment != "" {
+			return x.Comment
+		}
+	}
+	for _, b := range g.fn.Blocks {
+		for _, ins := range b.Instrs {
+			if dr, ok := ins.(*ssa.DebugRef); ok && dr.X == v {
+				if id, ok := dr.Expr.(*ast.Ident); ok {
+					return id.Name
+				}
+			}
+		}
+	}
+	return ""
+}
+
+// frameCheckEvent: a function with a modifies clause must declare the ghost events it (or its callees) may emit,
+// otherwise callers that count those events would reason with stale counters.
+func (g *vcgen) frameCheckEvent(ev string) {
+	if !g.frameActive() {
+		return
+	}
+	if g.frameAllowsVar("G.cnt." + ev) {
+		return
+	}
+	g.obligeAt("frame", "event "+ev, "", "false", "the function may emit ghost event "+ev+" but its modifies clause does not list events("+ev+")")
 }
